@@ -168,23 +168,28 @@ pub fn decode_many(tys: &[Ty], bytes: &[u8]) -> (Vec<Result<Val, ErrInfo>>, Vec<
 
 /// `serialize_iterator` over an iterator whose size hint is inexact
 pub fn encode_iter_unknown(elem: &Ty, xs: &[Val]) -> Result<Vec<u8>, ErrInfo> {
+    encode_iter_hint(elem, xs, 0, None)
+}
+
+/// `serialize_iterator` over an iterator that reports the size hint `(lo, hi)` (inexact unless `hi == Some(lo)`)
+pub fn encode_iter_hint(elem: &Ty, xs: &[Val], lo: usize, hi: Option<usize>) -> Result<Vec<u8>, ErrInfo> {
     live::reset_tls();
     let items: Vec<Live> = xs.iter().map(|x| Live::from_val(elem, x)).collect();
     let mut ctx = desert::SerializationContext::new(Vec::new());
-    let mut it = Inexact(items.iter());
+    let mut it = Inexact(items.iter(), lo, hi);
     desert::serialize_iterator(&mut it, &mut ctx).map_err(|e| errinfo(&e))?;
     Ok(ctx.into_output())
 }
 
 /// iterator adaptor that admits it does not know its length
-struct Inexact<I>(I);
+struct Inexact<I>(I, usize, Option<usize>);
 impl<I: Iterator> Iterator for Inexact<I> {
     type Item = I::Item;
     fn next(&mut self) -> Option<I::Item> {
         self.0.next()
     }
     fn size_hint(&self) -> (usize, Option<usize>) {
-        (0, None)
+        (self.1, self.2)
     }
 }
 
